@@ -570,6 +570,16 @@ class BitStream(ConstBitStream, bitstring.BitArray):
             self._bitstore = self._bitstore._copy()
             self._bitstore.immutable = False
 
+    def __setattr__(self, attribute, value) -> None:
+        super().__setattr__(attribute, value)
+        if attribute not in ('_pos', '_bitstore'):
+            # Assigning a new value through a property can shorten the bitstring, so keep pos valid.
+            try:
+                if self._pos > len(self):
+                    self._pos = 0
+            except AttributeError:
+                pass
+
     def __copy__(self) -> BitStream:
         """Return a new copy of the BitStream."""
         s_copy = object.__new__(BitStream)
